@@ -72,3 +72,32 @@ HARNESS(h_c19_stats) {
     }
 #endif
 }
+
+// C18 (consumer side): what the real solver constructor builds from the global parameters. din: [time_step, damping, min_edge_len, cutoff_adhesion,
+// cutoff_repulsion, initial_pressure, bulk_modulus]; iin: [enable_edge_swap]. One static tetrahedron (volume 1/6).
+HARNESS(h_c18_wire) {
+    const double* D = io->din;
+    global_simulation_parameters sp;
+    sp.time_step_ = D[0]; sp.damping_coefficient_ = D[1]; sp.min_edge_len_ = D[2]; sp.contact_cutoff_adhesion_ = D[3]; sp.contact_cutoff_repulsion_ = D[4];
+    sp.sampling_period_ = 1.; sp.simulation_duration_ = 10.; sp.enable_edge_swap_operation_ = io->iin[0] != 0;
+#ifdef IRSYM_NATIVE
+    sp.output_folder_path_ = "/tmp/irsym_c18_wire_out";
+#else
+    sp.output_folder_path_ = "out";
+#endif
+    auto ct = std::make_shared<cell_type_parameters>();
+    ct->global_type_id_ = 4; ct->mass_density_ = 1.; ct->bulk_modulus_ = D[6]; ct->initial_pressure_ = D[5]; ct->max_pressure_ = std::numeric_limits<double>::infinity();
+    ct->avg_division_vol_ = 1e9; ct->min_vol_ = 0.;
+    face_type_parameters ft; ct->add_face_type(ft);
+    std::vector<double> pos = {0, 0, 0, 1, 0, 0, 0, 1, 0, 0, 0, 1};
+    std::vector<unsigned> ids = {0, 2, 1, 0, 1, 3, 0, 3, 2, 1, 2, 3};
+    cell_ptr c = std::make_shared<static_cell>(pos, ids, 0u, ct);
+    c->initialize_cell_properties(true);
+    std::vector<cell_ptr> cells = {c};
+    solver s(sp, cells, 1, true, false);
+    OD(s.lmr_ptr_->l_min_); OD(s.lmr_ptr_->l_max_); OI(s.lmr_ptr_->enable_edge_swap_operation_);
+    OD(s.time_integrator_ptr_->dt_); OD(s.time_integrator_ptr_->damping_coeff_);
+    OD(s.contact_model_ptr_->interaction_cutoff_adhesion_); OD(s.contact_model_ptr_->interaction_cutoff_repulsion_);
+    OD(s.contact_model_ptr_->aabb_padding_); OD(s.contact_model_ptr_->grid_.voxel_size_);
+    OD(c->get_volume()); OD(c->get_target_volume()); OD(c->get_pressure());
+}
